@@ -4,6 +4,7 @@
        data + row lengths, StringArray as NUL-padded fixed-width byte matrix, flat encoded array, nested table)
        and the column-wise algorithms of npdataclass / bnpdataclass / string_array.
    No proofs in this file. *)
+From Coq Require Import String.
 From Coq Require Import ZArith List Bool.
 From BNP Require Import Base.Prims.
 Import ListNotations.
@@ -486,10 +487,12 @@ Definition dval_of (c : bcol) : dval :=
   | ColFlat v => VStrs (map (fun c => [decode strand_alphabet c]) v)
   end.
 Definition dot : Z := 46.
+(* f'{field.name}.{k}' *)
+Definition m_dict_join (name sub : list Z) : list Z := name ++ [dot] ++ sub.
 Definition m_todict (sch : schema) (t : ctable) : list (list Z * dval) :=
   flat_map (fun p =>
     match snd (fst p), snd p with
-    | FN ks, CNest cs => map (fun q => (fst (fst p) ++ [dot] ++ fst (fst q), dval_of (snd q))) (combine ks cs)
+    | FN ks, CNest cs => map (fun q => (m_dict_join (fst (fst p)) (fst (fst q)), dval_of (snd q))) (combine ks cs)
     | _, CBase b => [(fst (fst p), dval_of b)]
     | _, _ => []
     end) (combine sch t).
@@ -633,3 +636,51 @@ Definition s_step (sch : schema) (cur t1 : table) (o : op) : sres :=
   | OIndex i => match s_index cur i with Some r => SRows [r] | None => SErr end
   | OIter => SRows cur
   end.
+
+(* ====================================================================== rules named for the translator bridge
+   Each m_… below is the decision rule the model functions above follow, stated over the same flags as the
+   definition translate/gen_c19.py regenerates from /repo (Gen/C19.v).  Bridge/C19.v proves gen_… = m_… and that the
+   model functions really behave as these rules say. *)
+Definition m_from_rows_transposes : bool := true.                         (* columns = zip( *tuples): zip_rows *)
+Definition m_from_rows_empty_rule : bool := fix1_from_rows_empty.         (* no columns -> cls.empty() *)
+(* which representation sort_by hands to argsort: 0 the column itself, 2 raw bytes of a StringArray,
+   3 as_string_array(EncodedRaggedArray) and then its raw bytes *)
+Definition m_sort_key_rule (fx4 is_era is_sa : bool) : Z :=
+  if fx4 then (if is_era then 3 else if is_sa then 2 else 0) else 0.
+Definition m_sort_stable : bool := fix4_sort_strings.                     (* argsort(kind='stable'); the model's argsort is stable *)
+(* order of the type tests of _implicit_format_conversion and the conversion each applies *)
+Definition m_dispatch : list (string * string) :=
+  [("union_str", "as_encoded"); ("numeric", "asanyarray"); ("str", "as_encoded"); ("seqid", "as_string_array");
+   ("encoding", "as_encoded_typed"); ("list_num", "ragged"); ("nested", "table")]%string.
+(* the test a declared kind satisfies, and the conversion the model applies to it *)
+Definition kind_test (k : kind) : string :=
+  match k with
+  | KInt | KOpt | KFloat | KBool => "numeric" | KStr => "str" | KId => "seqid"
+  | KDna | KStrand => "encoding" | KList => "list_num"
+  end%string.
+Definition bcol_action (c : bcol) : string :=
+  match c with
+  | ColNum _ _ => "asanyarray" | ColRag RStr _ _ => "as_encoded" | ColRag RDna _ _ => "as_encoded_typed"
+  | ColRag (RNum _) _ _ => "ragged" | ColPad _ _ => "as_string_array" | ColFlat _ => "as_encoded_typed"
+  end%string.
+Fixpoint first_action (d : list (string * string)) (test : string) : option string :=
+  match d with [] => None | (t, a) :: r => if String.eqb t test then Some a else first_action r test end.
+(* dtype rule for an empty numeric column: 0 keep float64, 1 cast to int, 2 cast to bool *)
+Definition m_empty_dtype_rule (fx5 size0 is_f64 decl_int_or_bool decl_bool : bool) : Z :=
+  if fx5 && (size0 && (is_f64 && decl_int_or_bool)) then (if decl_bool then 2 else 1) else 0.
+Definition dt_of_rule (r : Z) : dt := if r =? 1 then DI else if r =? 2 then DB else DF.
+Definition kind_int_or_bool (k : kind) : bool := match k with KInt | KOpt | KBool => true | _ => false end.
+Definition kind_bool (k : kind) : bool := match k with KBool => true | _ => false end.
+(* flat-alphabet field: raise when a ragged input has an entry that is not one symbol *)
+Definition m_flat_check_raises (fx6 is_flat is_ragged some_len_not_1 : bool) : bool :=
+  fx6 && (is_flat && (is_ragged && some_len_not_1)).
+Definition m_nested_converts_rows : bool := fix2_from_rows_nested.
+(* add_fields: names must be identifiers (so no '.'); an empty, explicitly typed column raises on the pinned code *)
+Definition m_add_name_raises (is_identifier : bool) : bool := negb is_identifier.
+Definition m_add_empty_typed_raises : bool := negb fix3_add_empty.
+(* from_dict: split at the first '.', field name first *)
+Definition m_dict_split : Z * Z * bool := (dot, 1, true).
+(* StringArray: lengths = count_nonzero of the padded row; padding on the right; width from an encoded ragged array *)
+Definition m_sa_length (row : list Z) : Z := len (filter (fun c => negb (c =? 0)) row).
+Definition m_sa_pads_right : bool := true.
+Definition m_sa_width_from_encoded (no_chars : bool) (longest : Z) : Z := if no_chars then 1 else longest.
